@@ -29,23 +29,41 @@ Qed.
 
 (* ---------- writer ---------- *)
 (* the file is a concatenation of 8-byte big-endian timestamps each followed by one frame *)
-Theorem write_ok d budget file e fb f' : frame_write d (e_frame e) = (Ok fb, f') -> 2 <= budget ->
-  tlog_write d budget file e = (Ok tt, budget - 2, file ++ ts_bytes (e_time e) ++ fb).
+Theorem write_ok d o file e fb f' : frame_write d (e_frame e) = (Ok fb, f') ->
+  tlog_write d (true :: true :: o) file e = (Ok tt, o, file ++ ts_bytes (e_time e) ++ fb).
 Proof.
-  intros W B. unfold tlog_write. rewrite W.
-  destruct budget as [|[|b]]; try lia. cbn [uwrite]. rewrite <- app_assoc. repeat f_equal. lia.
+  intros W. unfold tlog_write. rewrite W. cbn [uwrite]. rewrite <- app_assoc. reflexivity.
 Qed.
 
 (* an entry whose frame cannot be encoded leaves no bytes in the file *)
-Theorem no_partial_entry d budget file e x f' : frame_write d (e_frame e) = (Err x, f') ->
-  tlog_write d budget file e = (Err x, budget, file).
+Theorem no_partial_entry d o file e x f' : frame_write d (e_frame e) = (Err x, f') ->
+  tlog_write d o file e = (Err x, o, file).
 Proof. intros W. unfold tlog_write. rewrite W. reflexivity. Qed.
 
 (* a failing underlying write is reported to the caller *)
-Theorem write_error_reported d budget file e fb f' : frame_write d (e_frame e) = (Ok fb, f') -> budget < 2 ->
-  fst (fst (tlog_write d budget file e)) = Err err_write.
+Definition two_ok (o : list bool) : bool := match o with true :: true :: _ => true | _ => false end.
+Theorem write_error_reported d o file e fb f' : frame_write d (e_frame e) = (Ok fb, f') -> two_ok o = false ->
+  fst (fst (tlog_write d o file e)) = Err err_write.
 Proof.
-  intros W B. unfold tlog_write. rewrite W. destruct budget as [|[|b]]; try lia; reflexivity.
+  intros W B. unfold tlog_write. rewrite W. destruct o as [|[|] [|[|] o']]; try discriminate; reflexivity.
+Qed.
+
+(* the writer has no memory: after any history of entries — refused, failed at the transport or
+   written — the next entry that is written appends exactly its own timestamp and frame *)
+Fixpoint after_entries (d : option dialect) (o : list bool) (file : list N) (es : list entry) : list bool * list N :=
+  match es with
+  | [] => (o, file)
+  | x :: t => let '(_, o2, f2) := tlog_write d o file x in after_entries d o2 f2 t
+  end.
+Theorem write_after_any_history d : forall es o file e fb f' o1 file1,
+  frame_write d (e_frame e) = (Ok fb, f') -> after_entries d o file es = (true :: true :: o1, file1) ->
+  snd (tlog_write_all d o file (es ++ [e])) = file1 ++ ts_bytes (e_time e) ++ fb.
+Proof.
+  induction es as [|x t IH]; intros o file e fb f' o1 file1 W A.
+  - cbn in A. inversion A; subst. cbn [app tlog_write_all]. rewrite (write_ok d o1 file1 e fb f' W). reflexivity.
+  - cbn [app tlog_write_all after_entries] in *. destruct (tlog_write d o file x) as [[r o2] f2].
+    specialize (IH o2 f2 e fb f' o1 file1 W A).
+    destruct (tlog_write_all d o2 f2 (t ++ [e])) as [rs2 f3]. cbn [snd] in *. exact IH.
 Qed.
 
 (* ---------- reader: complete entries ---------- *)
